@@ -100,12 +100,12 @@ class Gen:
              ('append', 10), ('prepend', 3), ('insert', 4), ('remove', 7), ('dispatch', 4),
              ('peek', 3), ('take', 4), ('dispatchtaken', 2), ('clear', 2), ('emptyq', 4)]
         if fl == 'empty':
-            w += [('emptyq', 25)]
+            w += [('emptyq', 25), ('waitfor0', 12)]
         if fl == 'ledger' and depth == 0:
             w += [('ledger', 18), ('clear', 4), ('take', 5)]
         if depth > 0:
             # inside listeners and predicates: fewer heavy operations
-            w = [(k, (v if k in ('enqueue', 'emptyq', 'remove', 'append') else max(1, v // 3))) for k, v in w]
+            w = [(k, (v if k in ('enqueue', 'emptyq', 'waitfor0', 'remove', 'append') else max(1, v // 3))) for k, v in w]
         kind = r.weighted(w)
         self.stat(('body_' if depth else 'main_') + kind)
         k = self.key()
